@@ -19,7 +19,8 @@ THEOREMS = ["C18_bijection", "C18_expand_var_names", "C18_one_based", "C18_layou
             "C18_lowrank_list_refuted", "C18_lowrank_dm_refuted", "C18_attributes_refuted",
             "C18_attributes_refuted_dm", "C18_outputs_in_place", "C18_delay_order",
             "C18_residual", "C18_residual_matrix", "C18_residual_names", "C18_residual_example",
-            "C18_metadata_rows_partial", "C18_example"]
+            "C18_metadata_rows_partial", "C18_metadata_rows_own_partial", "C18_metadata_rows_c13_partial",
+            "C18_c13_cells", "C18_example"]
 
 GROUPS = ["states", "der_states", "alg_states", "inputs", "parameters", "constants"]
 ATTRS = ["value", "min", "max", "start", "fixed", "nominal"]          # CASADI_ATTRIBUTES order
